@@ -53,6 +53,7 @@ def check(run, repo, tier):
   V(run, repo, r4_prevnext)
   from ._extra import c14_sortkey_total_order
   V(run, repo, c14_sortkey_total_order, "C14-R5")
+  H.finish_views(run, repo)
 
 
 def _const_int(node):
@@ -120,7 +121,7 @@ def _xname(fn, e):
 
 def _inl(flow, e):
   """Text-comparable copy of e with single-assignment locals replaced by their values."""
-  return flow.du.inline(e)
+  return H.inline(flow, e)
 
 
 def _returned(fn, flow):
